@@ -19,13 +19,15 @@ EXTENDS Nft, Json
 CONSTANTS FLAVOUR,       \* "base" | "enumerable" | "consecutive"
           Acct,          \* model accounts
           OpSet,         \* entry points exercised by this configuration
-          AuthMode,      \* "self": the principal authorizes; "all": {}, {principal}, everybody else
+          AuthMode,      \* "self": the principal authorizes; "all": either the principal alone or everybody else
           MaxId,         \* sequential ids 0..MaxId may be issued; MaxId+1 is only queried
           XIds,          \* explicit ids (disjoint from the sequential range, each minted at most once)
           NS,            \* batch sizes
           ITEMS, BITS,   \* scaled bucket geometry: ITEMS items of BITS bits per bucket
           TIds,          \* token ids named by transfer / burn / approve calls
-          ToSet,         \* recipients / approved accounts / operators
+          RcSet,         \* recipients of mints and transfers
+          ToSet,         \* approved accounts / operators
+          FromSet,       \* `from` of transfer_from / burn_from
           PreMode,       \* pre-minted tokens: "none" | "two" (see Pre / PreN below)
           DUs,           \* approval lifetimes: live_until - now  (plus the revoking 0)
           DTs,           \* ledgers advanced before a call
@@ -252,7 +254,7 @@ Obs(st, t) ==
    otok_oob |-> [a \in Acct |-> IF E /\ st.bal[a] \in Idx /\ st.otok[a][st.bal[a]] # -1 THEN "ok" ELSE "fail"]]
 
 (* calls ------------------------------------------------------------------------------*)
-Auths(p) == IF AuthMode = "self" THEN {{p}} ELSE {{}, {p}, Acct \ {p}}
+Auths(p) == IF AuthMode = "self" THEN {{p}} ELSE {{p}, Acct \ {p}}
 Untils(t) == {0} \cup {t + d : d \in DUs}
 
 Op(k, sp, from, to, id, n, until, auth) ==
@@ -260,20 +262,26 @@ Op(k, sp, from, to, id, n, until, auth) ==
 
 FreshX(st) == {x \in XIds : x \notin DOMAIN g.own}
 
+\* <<from, id>> pairs of transfer / burn: in "self" mode only the owner tries (one arbitrary account
+\* for an id without owner); the rejection side is the business of the "all" configurations
+Froms(st) ==
+  IF AuthMode # "self" THEN Acct \X TIds
+  ELSE {<<IF OwnerOfImpl(st, i) # NoOne THEN OwnerOfImpl(st, i) ELSE CHOOSE a \in Acct : TRUE, i>> : i \in TIds}
+
 Ops(st, t) ==
   LET W(k) == k \in OpSet IN
-       {Op("mint_seq", NoOne, NoOne, to, 0, 0, 0, {}) : to \in IF W("mint_seq") /\ st.ctr <= MaxId THEN ToSet ELSE {}}
-  \cup {Op("mint_id", NoOne, NoOne, to, x, 0, 0, {}) : to \in IF W("mint_id") THEN ToSet ELSE {}, x \in FreshX(st)}
+       {Op("mint_seq", NoOne, NoOne, to, 0, 0, 0, {}) : to \in IF W("mint_seq") /\ st.ctr <= MaxId THEN RcSet ELSE {}}
+  \cup {Op("mint_id", NoOne, NoOne, to, x, 0, 0, {}) : to \in IF W("mint_id") THEN RcSet ELSE {}, x \in FreshX(st)}
   \cup {Op("batch", NoOne, NoOne, to, 0, n, 0, {}) :
-          to \in IF W("batch") THEN ToSet ELSE {}, n \in {m \in NS : st.ctr + m <= MaxId + 1}}
-  \cup UNION {{Op("transfer", NoOne, f, to, i, 0, 0, au) : au \in Auths(f)} :
-          f \in IF W("transfer") THEN Acct ELSE {}, to \in ToSet, i \in TIds}
+          to \in IF W("batch") THEN RcSet ELSE {}, n \in {m \in NS : st.ctr + m <= MaxId + 1}}
+  \cup UNION {{Op("transfer", NoOne, fi[1], to, fi[2], 0, 0, au) : au \in Auths(fi[1]), to \in RcSet} :
+          fi \in IF W("transfer") THEN Froms(st) ELSE {}}
   \cup UNION {{Op("transfer_from", sp, f, to, i, 0, 0, au) : au \in Auths(sp)} :
-          sp \in IF W("transfer_from") THEN Acct ELSE {}, f \in Acct, to \in ToSet, i \in TIds}
-  \cup UNION {{Op("burn", NoOne, f, NoOne, i, 0, 0, au) : au \in Auths(f)} :
-          f \in IF W("burn") THEN Acct ELSE {}, i \in TIds}
+          sp \in IF W("transfer_from") THEN Acct ELSE {}, f \in FromSet, to \in RcSet, i \in TIds}
+  \cup UNION {{Op("burn", NoOne, fi[1], NoOne, fi[2], 0, 0, au) : au \in Auths(fi[1])} :
+          fi \in IF W("burn") THEN Froms(st) ELSE {}}
   \cup UNION {{Op("burn_from", sp, f, NoOne, i, 0, 0, au) : au \in Auths(sp)} :
-          sp \in IF W("burn_from") THEN Acct ELSE {}, f \in Acct, i \in TIds}
+          sp \in IF W("burn_from") THEN Acct ELSE {}, f \in FromSet, i \in TIds}
   \cup UNION {{Op("approve", NoOne, f, to, i, 0, u, au) : au \in Auths(f)} :
           f \in IF W("approve") THEN Acct ELSE {}, to \in ToSet, i \in TIds, u \in Untils(t)}
   \cup UNION {{Op("approve_for_all", NoOne, ft[1], ft[2], 0, 0, u, au) : au \in Auths(ft[1])} :
@@ -290,7 +298,7 @@ Call(st, gg, o, dt, t0) ==
   IN [s |-> s2, ev |-> ev, g |-> GNext(gg, ev),
       bad |-> {<<m, Key(m, gg, ev)>> : m \in Failing(gg, ev)},
       h |-> [op |-> o.op, sp |-> o.sp, from |-> o.from, to |-> o.to, id |-> o.id, n |-> o.n,
-             until |-> o.until, auth |-> o.auth, dt |-> dt, exp |-> ev.res]]
+             until |-> o.until, auth |-> o.auth, dt |-> dt, exp |-> ev.res, fl |-> FLAVOUR]]
 
 PreOp(i) == IF FLAVOUR = "consecutive" THEN Op("batch", NoOne, NoOne, Pre[i], 0, PreN[i], 0, {})
             ELSE Op("mint_seq", NoOne, NoOne, Pre[i], 0, 0, 0, {})
@@ -305,11 +313,13 @@ Start == PreRun(1, [s |-> S0, g |-> GInit(FLAVOUR, Obs(S0, Now0)), viol |-> {}, 
 
 Init == /\ s = Start.s /\ g = Start.g /\ viol = Start.viol /\ hist = Start.hist /\ now = Now0
 
-Step(o, dt) ==
-  LET c == Call(s, g, o, dt, now) IN
+\* (an operator argument is evaluated once by TLC; a LET in an action would be re-evaluated per use)
+Apply(c, dt) ==
   /\ now' = now + dt /\ s' = c.s /\ g' = c.g
   /\ viol' = viol \cup c.bad
   /\ hist' = Append(hist, c.h)
+
+Step(o, dt) == Apply(Call(s, g, o, dt, now), dt)
 
 Next == \E dt \in DTs : \E o \in Ops(s, now + dt) : Step(o, dt)
 
